@@ -36,7 +36,11 @@ RULE = ("random DCOPs of 1-6 variables (domains of 1-3 integer values, also non-
         "costs in {0,1(,2)} on 85% of the variables (dict or function), binary tables in {0,1(,2)}, variants B/C "
         "favoured, stop_cycle 3-6): there 'cost difference 0 although the current value is not a best value, "
         "several best values' (find_optimal adds the variable's own cost, the current cost does not) happens in "
-        "~10% of the runs. "
+        "~10% of the runs. 15% of all cases run a startlate schedule with pause(True)/pause(False) of running "
+        "computations (a stutter of the model: Pause/Resume and deliveries to a paused computation are not model "
+        "actions; everybody is resumed before the observation); 12% use the names v0, v00, v000.. (every name a "
+        "substring of the later ones, same lexical order); 30% of the cost dicts do not cover the whole domain "
+        "(missing value = cost 0); a handler call using more than 20 s of CPU is reported as a raising handler. "
         "non-trivial = some computation reaches cycle 2; distinct = distinct case JSON")
 MODELLED = ("modelled: all message handlers of MgmComputation, DsaComputation and Mgm2Computation with their "
             "postponed lists / dictionaries, stop_cycle tests, value_selection, new_cycle, finished, stop, plus "
@@ -109,6 +113,8 @@ def gen(rng, n, tier):
         if rng.random() < 0.15:
             c["pauses"] = 1              # startlate schedule with pause / resume (L.run_with_pauses)
             c["policy"] = "startlate+pauses"
+        if rng.random() < 0.12:
+            c["names"] = "sub"           # v0, v00, v000 ...: every name is a substring of the later ones
         cases.append(c)
     return cases
 
